@@ -347,6 +347,16 @@ class Check(object):
             frames = traceback.extract_tb(e.__traceback__)
             repo = os.path.realpath(os.environ.get("VERIF_REPO", "/repo"))
             inner = frames[-1] if frames else None
+            if inner is not None and not os.path.realpath(inner.filename).startswith(repo + os.sep):
+                # raised inside a third-party library that the code under test called (the harness called into the repository, the repository
+                # called the library with something the library refuses): still the code's behaviour — located at the repository's last frame
+                here = os.path.realpath(os.path.dirname(os.path.abspath(__file__)))
+                kinds = ["repo" if os.path.realpath(f.filename).startswith(repo + os.sep) else
+                         "harness" if os.path.realpath(f.filename).startswith(here + os.sep) else "lib" for f in frames]
+                last_h = max([i for i, k in enumerate(kinds) if k == "harness"] or [-1])
+                after = kinds[last_h + 1:]
+                if after and after[0] == "repo" and kinds[-1] == "lib":
+                    inner = [f for f, k in zip(frames, kinds) if k == "repo"][-1]
             if inner is not None and os.path.realpath(inner.filename).startswith(repo + os.sep):
                 where = "%s:%s" % (os.path.relpath(os.path.realpath(inner.filename), repo), inner.name)
                 return [oracle("%s:code-under-test-raises:%s@%s" % (self.pid, type(e).__name__, where),
